@@ -268,3 +268,22 @@ Print Assumptions C02_sniff.
 Print Assumptions C02_read_one_data.
 Print Assumptions C02_read_engines_agree.
 Print Assumptions C02_read_agree.
+
+(* ---- the sniffer of the model IS reader.inspect_data_section as it stands today ---------------------
+   Model/DataRead.inspect (inspect_loop: the window of at most 21 data lines, blank and comment lines not
+   counted, the hyphen test on data lines only, the item count with the configured splitter after the
+   substitutions; all_equal: the returned column count or -1; drop_hyphen_subs: the recommendation) equals,
+   for every file, every pair of line numbers, every list of READ_SUBS substitutions and each splitter, the
+   function re-translated on this run from /repo (py_inspect_data_section in Gen/Funcs.v; HYPHEN_SUBS and
+   READ_SUBS are re-read from defaults.py).  The file object is the list of the lines that remain after
+   file_obj.seek(k); the model works on Sections.body_lines, so the line-number bookkeeping is part of the
+   statement.  Proofs/FuncsPinInspect.v. *)
+From Coq Require Import ZArith.
+Require Import Funcs FuncsPinInspect.
+Theorem C02_inspect_current : forall d file first last title subs,
+  py_inspect_data_section (skipn first file) (Z.of_nat first, Z.of_nat last) (List.map sub_pair subs) [ch_hash]
+                          (Some (split_line d))
+  = let (n, subs') := inspect d (body_lines file (mkspos first last title)) subs in
+    Some (ncols_Z n, List.map sub_pair subs').
+Proof. exact inspect_pin. Qed.
+Print Assumptions C02_inspect_current.
